@@ -42,6 +42,18 @@ def readFields (conf : Bool) (pre : String) (doc : Str) (expected : List Triple)
   | .err => [kv (pre ++ "parse") "err", kv (pre ++ "g") "err", kv (pre ++ "rt") "0"]
   | .unsupported => []
 
+/-- `a<N>` (absolute byte budget) or `r<K>` (K bytes less than the document needs) -/
+def parseLimit (s : String) : Option (Bool × Nat) :=
+  match s.toList with
+  | 'a' :: r => (String.ofList r).toNat?.map (fun k => (false, k))
+  | 'r' :: r => (String.ofList r).toNat?.map (fun k => (true, k))
+  | _ => none
+
+def outcomeField : Outcome → String
+  | .ok _ => kv "res" "ok"
+  | .sinkErr => kv "res" "sinkerr"
+  | .sourceErr => kv "res" "srcerr"
+
 def handle (line : String) : String :=
   match fields line with
   | "ser" :: n :: toks =>
@@ -52,9 +64,28 @@ def handle (line : String) : String :=
       | some doc =>
         -- `x.` fields: what a conforming XML 1.0 processor in front of the same RDF/XML state
         -- machine would deliver (model only; the implementation has no such field)
+        -- `dflt`: the configuration-less entry points behave as indentation 0; `cfg`: the accessors
+        let dflt := if serialize defaultIndentation ts == serialize 0 ts then "eq0"
+          else match serialize defaultIndentation ts with | some d => hexOfChars d | none => "err"
         reply ([kv "out" (hexOfChars doc)] ++ readFields false "" doc (restrict ts)
+               ++ [kv "dflt" dflt, kv "cfg" (toString n ++ "," ++ toString n ++ "," ++ toString defaultIndentation)]
                ++ readFields true "x." doc (restrict ts))
     | _, _ => "bad-op"
+  | "sink" :: n :: lim :: toks =>
+    match n.toNat?, parseLimit lim, parseTriples (toks.length + 1) toks with
+    | some n, some (rel, k), some ts =>
+      match serialize n ts with
+      | none => outcomeField (serializeTriples n ts false (some (if rel then 0 else k)))
+      | some doc =>
+        let need := utf8Len doc
+        let limit := if rel then need - k else k
+        reply [outcomeField (serializeTriples n ts false (some limit)), kvN "written" (min limit need),
+               kvN "refused" (if limit < need then 1 else 0)]
+    | _, _, _ => "bad-op"
+  | "src" :: n :: k :: toks =>
+    match n.toNat?, k.toNat?, parseTriples (toks.length + 1) toks with
+    | some n, some k, some ts => outcomeField (serializeTriples n (ts.take k) (decide (k < ts.length)) none)
+    | _, _, _ => "bad-op"
   | ["split", h] =>
     match charsOfHex h with
     | none => "bad-hex"
